@@ -7,7 +7,7 @@
    claimant of interface name n under wlIdsAscending. *)
 From Coq Require Import List NArith Bool Lia.
 Import ListNotations.
-From Verif.C44 Require Import Model Spec MapLemmas Proofs Fixed Term Cover Meets Order Arrival.
+From Verif.C44 Require Import Model Spec MapLemmas Proofs Fixed Term Cover Meets Order Arrival Routes.
 Open Scope N_scope.
 
 (* The loop of resolveWorkloadEndpoints terminates with an empty pending map for every iteration order
@@ -201,3 +201,11 @@ Example ex_arrival_orders :
   o_ids (observe (run true st0 [([Upd hi e2], []); ([Upd lo e1], [])])) = [(0, lo)]
   /\ o_ids (observe (run true st0 [([Upd lo e1; Upd hi e2], [1%nat])])) = [(0, lo)].
 Proof. vm_compute. auto. Qed.
+
+(* calculateRoutes: for every configuration, live-migration state and endpoint, the routes computed for an endpoint go
+   only to its own networks / NAT external addresses (the latter only with floating IPs or OpenStack), cover all of
+   them unless it is a live-migration target (then none), and carry one priority (Spec.ok_routes accepts the model). *)
+Theorem c44_calc_routes_meets_spec :
+  forall fip os l np ep nets ext, ok_routes fip os l np ep nets ext (calc_routes fip os l np ep nets ext) = true.
+Proof. exact ok_routes_calc. Qed.
+Print Assumptions c44_calc_routes_meets_spec.
